@@ -69,11 +69,13 @@ func (t *sleepTransaction) Sleep() error {
 		duration := uint16(t.sleepDuration / time.Second)
 		t.disconnect = pkts1.NewDisconnect(duration)
 		t.state = awaitingDisconnect
+		// The timer must be armed before the packet is sent: the gateway's
+		// reply can be handled before send returns.
+		t.timer = time.AfterFunc(t.retryDelay, t.resendDisconnect)
 		if err := t.client.send(t.disconnect); err != nil {
 			t.Fail(err)
 			return err
 		}
-		t.timer = time.AfterFunc(t.retryDelay, t.resendDisconnect)
 	case util.StateAwake:
 		t.startSleep()
 	default:
@@ -83,6 +85,10 @@ func (t *sleepTransaction) Sleep() error {
 }
 
 func (t *sleepTransaction) resendDisconnect() {
+	if t.state != awaitingDisconnect {
+		// The gateway's reply has been handled meanwhile.
+		return
+	}
 	t.disconnectResendNum++
 	if t.disconnectResendNum > t.retryCount {
 		t.log.Debug("DISCONNECT reply timeout.")
@@ -90,11 +96,11 @@ func (t *sleepTransaction) resendDisconnect() {
 		return
 	}
 	t.log.Debug("DISCONNECT resend no. %d", t.disconnectResendNum)
+	t.timer = time.AfterFunc(t.retryDelay, t.resendDisconnect)
 	if err := t.client.send(t.disconnect); err != nil {
 		t.Fail(err)
 		return
 	}
-	t.timer = time.AfterFunc(t.retryDelay, t.resendDisconnect)
 }
 
 func (t *sleepTransaction) Disconnect(disconnect *pkts1.Disconnect) {
